@@ -690,8 +690,8 @@ class BADS:
         optim_state["tol_mesh"] = self.options[
             "poll_mesh_multiplier"
         ] ** np.ceil(
-            np.log(self.options["tol_mesh"])
-            / np.log(self.options["poll_mesh_multiplier"])
+            np.log(np.float64(self.options["tol_mesh"]))
+            / np.log(np.float64(self.options["poll_mesh_multiplier"]))
         )
 
         # Periodic variables
